@@ -123,7 +123,14 @@ def ledgerTags (txs : List Tx) (ds : List Delta) (fail : Option Failure) : List 
   let nOver := (ds.filter (fun d => match d.sfl with | some s => s.over | none => false)).length
   let nLoss := (ds.filter (fun d => match d.gain, d.sfl with
       | some g, none => g < 0 | some _, some _ => true | _, _ => false)).length
-  [s!"n={txs.length}", s!"affs={affs.length}", s!"reg={(affs.filter (·.registered)).length}",
+  let nSellNonReg := (txs.filter (fun t => t.act.isSell && !t.aff.registered)).length
+  let c3 := txs.all (fun t => !t.aff.registered &&
+      (match t.act with | .sell _ _ _ _ _ (some _) => false | .sfla .. => false | _ => true))
+  let nt := (if txs.length ≥ 3 && nSellNonReg ≥ 1 then ["C01"] else []) ++
+            (if nLoss ≥ 1 then ["C02"] else []) ++
+            (if c3 && nSfl ≥ 1 then ["C03"] else []) ++
+            (if txs.length ≥ 2 then ["C04"] else []) ++ ["C05"]
+  [s!"nt={String.intercalate "," nt}", s!"n={txs.length}", s!"affs={affs.length}", s!"reg={(affs.filter (·.registered)).length}",
    s!"loss={nLoss}", s!"sfl={nSfl}", s!"partial={nPartial}", s!"over={nOver}",
    s!"splits={(txs.filter (·.act.isSplit)).length}",
    s!"out={match fail with | none => "ok" | some f => failureName f}"]
